@@ -172,6 +172,12 @@ def run(program, rep, tier):
                          'World.__init__', 'constructor not analysed')
     relay_target(program, rep)
     clear_total(program, rep)
+    # postponed callbacks are released once, in order (the C04 release rules)
+    from rules import c04
+    n0 = len(rep.obs)
+    c04.check_release(program, rep)
+    for o in rep.obs[n0:]:
+        o.rule = o.rule.replace('C04.', 'C02.postponed-')
 
 
 def clear_total(program, rep):
